@@ -197,7 +197,12 @@ def encode(j, api: G.Api, event: str, variant: str) -> Optional[Sys]:
         else:
             ls: List[str] = []
             lifetimes_in(t, ls, el)
-            in_lts.extend(ls)   # independent locals that stay alive: no constraints
+            in_lts.extend(ls)   # independent locals that stay alive: no constraints ...
+            if event == 'drop_key' and 'borrowed_ref' in t and 'generic' in t['borrowed_ref']['type']:
+                # ... except in the drop_key scenario: the lookup key's borrow ends before the result is used
+                L = t['borrowed_ref']['lifetime'] or el
+                S.implies(L, 'b_key', '(&key borrows the lookup key)')
+                S.kill('b_key', 'drop_key')
     # output
     out = subst_assoc(sig.get('output'), assoc)
     out_elide = self_ref_lt or (in_lts[0] if len(set(in_lts)) == 1 else None) or "'out_unbound"
@@ -295,6 +300,13 @@ def probe_for(api: G.Api, event: str, variant: str, has_with_collector: bool) ->
     else:
         call = '%s.%s(%s)' % (recv, api.name, ', '.join(args))
     lines.append('let r = %s;' % call)
+    if event == 'drop_key':
+        if '&key' not in args:
+            return None
+        # the probe key lives in an inner block that ends before the result is used
+        lines[-1] = 'let r = { let key = String::from("k"); %s };' % call
+        lines.append('touch(&r);')
+        return '\n'.join(lines)
     ev = {'drop_guard': 'drop(guard);', 'refresh_guard': 'guard.refresh();', 'drop_map': 'drop(%s);' % base, 'drop_ref': 'drop(%s);' % recv, 'none': ''}[event]
     lines.append(ev)
     lines.append('touch(&r);')
@@ -312,6 +324,9 @@ def scenarios(api: G.Api) -> List[Tuple[str, str]]:
         out += [('drop_ref', 'pin'), ('drop_ref', 'with_guard'), ('drop_guard', 'with_guard'), ('refresh_guard', 'with_guard'), ('drop_map', 'pin')]
     else:
         out += [('drop_guard', 'own'), ('refresh_guard', 'own'), ('drop_map', 'own')]
+    has_key = any(nm != 'self' and 'borrowed_ref' in t and 'generic' in t['borrowed_ref']['type'] and 'Guard<' not in G.ty_str(t) for nm, t in api.fn['sig']['inputs'])
+    if has_key:
+        out.append(('drop_key', 'pin' if api.owner in ('HashMapRef', 'HashSetRef') else 'own'))
     return out
 
 
@@ -386,7 +401,10 @@ def run(tier: str) -> int:
             pid = '%s|%s|%s' % (akey, event, variant)
             r = C.check(S.s, 'C16 ' + pid)
             verdicts[pid] = r
-            chk.obligation('%s: result cannot be used after %s (%s)' % (akey, event, variant), 'unsat' if r == 'unsat' else 'sat', constraints=len(S.log))
+            if event == 'drop_key':
+                chk.obligation('%s: the result is NOT tied to the borrow of the lookup key' % akey, 'sat-expected' if r == 'sat' else 'violated', constraints=len(S.log))
+            else:
+                chk.obligation('%s: result cannot be used after %s (%s)' % (akey, event, variant), 'unsat' if r == 'unsat' else 'sat', constraints=len(S.log))
             if len(chk.samples) < 6:
                 chk.sample({'method': akey, 'event': event, 'variant': variant, 'constraints': S.log, 'verdict': r})
             body = probe_for(a, event, variant, has_wc)
@@ -429,6 +447,13 @@ def run(tier: str) -> int:
                 continue
             rejected = any(d['code'] in BORROWCK for d in att[pid])
             v = verdicts.get(pid)
+            if event == 'drop_key':
+                if v == 'unsat' and rejected:
+                    chk.violation('result-tied-to-lookup-key:' + akey, 'the signature of %s ties its result to the borrow of the lookup key: the constraint system is unsatisfiable and rustc REJECTS a program whose probe key dies before the result is used' % akey,
+                                  PRELUDE + '\npub fn probe() {\n' + probe_for_pid(probes, pid) + '\n}\n', 'c16_%s.rs' % re.sub(r'[^A-Za-z0-9]+', '_', pid))
+                elif (v == 'sat') != (not rejected):
+                    chk.inconclusive.append('%s: solver (%s) and rustc (%s) disagree' % (pid, v, 'rejects' if rejected else 'accepts'))
+                continue
             if v == 'sat' and not rejected:
                 chk.violation('use-after-%s:%s' % (event, akey), 'the signature of %s does not tie its result to the %s: the constraint system is satisfiable and rustc ACCEPTS the program `call; %s; use result` (%s)' % (
                     akey, 'guard' if 'guard' in event else ('map' if 'map' in event else 'wrapper'), event, variant), PRELUDE + '\npub fn probe() {\n' + (probe_for_pid(probes, pid)) + '\n}\n',
